@@ -49,6 +49,8 @@ type Extractor struct {
 	// such a local does not change the table
 	bind     map[types.Object]ast.Expr
 	binding  map[types.Object]bool // cycle guard
+	// `v, ok := f(args)`: ok object -> the call (rendered as f(args)#ok)
+	callOk map[types.Object]ast.Expr
 	// index variables of `for i := 0; i < len(X); i++` loops: object -> canonical X
 	indexOf map[types.Object]string
 	// Decl resolves a function of the module to its declaration (same type info), for helpers that
@@ -144,6 +146,9 @@ func (x *Extractor) Canon(e ast.Expr) string {
 		}
 		if g, isOk := x.okGuards[obj]; isOk {
 			return g
+		}
+		if call, isOk := x.callOk[obj]; isOk {
+			return x.Canon(call) + "#ok"
 		}
 		if tv, ok := x.Info.Types[v]; ok && tv.Value != nil {
 			return constText(obj, tv.Value.ExactString())
@@ -310,6 +315,14 @@ func (x *Extractor) condGuards(c ast.Expr, taken bool) []guard {
 			_, yIsLit := ast.Unparen(v.Y).(*ast.BasicLit)
 			if tv, ok := x.Info.Types[v.Y]; ok && yIsLit && tv.Value != nil && tv.Value.ExactString() == "0" && strings.HasPrefix(x.Canon(v.X), "len(") {
 				return []guard{{x.Canon(v.X) + " > 0", !taken}}
+			}
+			// a != b on values (not nil tests, which have the != spelling as their normal form) is !(a == b)
+			if tv, ok := x.Info.Types[v.Y]; ok && !tv.IsNil() {
+				if tx, ok := x.Info.Types[v.X]; ok && !tx.IsNil() {
+					if _, isBasic := x.Info.TypeOf(v.X).Underlying().(*types.Basic); isBasic {
+						return []guard{{x.Canon(v.X) + " == " + x.Canon(v.Y), taken}}
+					}
+				}
 			}
 		}
 	}
@@ -587,12 +600,20 @@ func (x *Extractor) walkStmt(s ast.Stmt, c ctx) ctx {
 			}
 			all = append(all, ts)
 		}
+		after := c
 		for _, cl := range st.Body.List {
 			cc := cl.(*ast.CaseClause)
 			cc2 := c
 			cc2.gs = with(c.gs, x.caseLabel(subj, cc, all))
 			x.walkList(cc.Body, cc2)
+			// control that continues behind the switch did not take a clause that leaves
+			if cc.List != nil && terminates(cc.Body) {
+				g := x.caseLabel(subj, cc, all)
+				g.neg = !g.neg
+				after.gs = with(after.gs, g)
+			}
 		}
+		return after
 	case *ast.SwitchStmt:
 		if st.Init != nil {
 			c = x.walkStmt(st.Init, c)
@@ -654,12 +675,19 @@ func (x *Extractor) walkStmt(s ast.Stmt, c ctx) ctx {
 				return c
 			}
 		}
+		after := c
 		for _, cl := range st.Body.List {
 			cc := cl.(*ast.CaseClause)
 			cc2 := c
 			cc2.gs = with(c.gs, x.caseLabel(subj, cc, all))
 			x.walkList(cc.Body, cc2)
+			if cc.List != nil && terminates(cc.Body) {
+				g := x.caseLabel(subj, cc, all)
+				g.neg = !g.neg
+				after.gs = with(after.gs, g)
+			}
 		}
+		return after
 	case *ast.ReturnStmt:
 		for _, r := range st.Results {
 			if x.stringish(r) {
@@ -969,8 +997,10 @@ func (x *Extractor) computeBindings(body ast.Node) {
 		x.bind = map[types.Object]ast.Expr{}
 		x.binding = map[types.Object]bool{}
 		x.indexOf = map[types.Object]string{}
+		x.callOk = map[types.Object]ast.Expr{}
 	}
 	defs := map[types.Object]ast.Expr{}
+	okCalls := map[types.Object]ast.Expr{}
 	writes := map[types.Object]int{}
 	ast.Inspect(body, func(n ast.Node) bool {
 		switch s := n.(type) {
@@ -990,6 +1020,11 @@ func (x *Extractor) computeBindings(body ast.Node) {
 				writes[o]++
 				if s.Tok == token.DEFINE && x.Info.Defs[id] != nil && len(s.Lhs) == len(s.Rhs) {
 					defs[o] = s.Rhs[i]
+				}
+				if s.Tok == token.DEFINE && x.Info.Defs[id] != nil && len(s.Lhs) == 2 && len(s.Rhs) == 1 && i == 1 {
+					if call, isCall := ast.Unparen(s.Rhs[0]).(*ast.CallExpr); isCall && pureExpr(call) {
+						okCalls[o] = call
+					}
 				}
 			}
 		case *ast.IncDecStmt:
@@ -1023,6 +1058,11 @@ func (x *Extractor) computeBindings(body ast.Node) {
 		}
 		return true
 	})
+	for o, call := range okCalls {
+		if writes[o] == 1 {
+			x.callOk[o] = call
+		}
+	}
 	for o, rhs := range defs {
 		if writes[o] != 1 || !pureExpr(rhs) {
 			continue
